@@ -887,7 +887,11 @@ func (w *streamWriter) Close() error {
 	}
 
 	w.parent.inStream = false
-	for _, pair := range w.parent.afterStream {
+	// take the queue first: a queued stream object is written through
+	// OpenStream, whose Close comes back here and must not see the queue again
+	queued := w.parent.afterStream
+	w.parent.afterStream = nil
+	for _, pair := range queued {
 		err = w.parent.Put(pair.ref, pair.obj)
 		if err != nil {
 			return err
